@@ -481,6 +481,10 @@ def r_decor(prog, tier):
                 for fa in fl:
                     if fa[0] == 'opaque' and fa[2] is True and ' or ' in fa[1] and 'has_children(' in fa[1] and "'gf_terminals' in %s" % kw in fa[1]:
                         ok2 = True
+                if ok2 is None and ('haskey', kw, 'gf_terminals', True) in fl and any(
+                        fa[0] == 'opaque' and fa[2] is True and 'has_children(' in fa[1] and ' or ' not in fa[1] for fa in fl):
+                    ok2 = False
+                    gt_and = True
                 if ok2 is None and not any('gf_terminals' in str(t) for fa in fl for t in fa[1:]) \
                         and all(fa[0] in ('haskey', 'truthy', 'none', 'cmp', 'opaque') for fa in fl) \
                         and not any(isinstance(x, ast.Call) and prog.callee(x, f) not in (None, ('trees', 'has_children'))
@@ -501,7 +505,10 @@ def r_decor(prog, tier):
                                       construct='decor-placeholder', line=x_.lineno))
                 obs.append(Ob('DECOR/GUARD', f.fq, 'tokens get the function label only with gf_terminals', ok2,
                               'guard `has_children(tree) or \'gf_terminals\' in params`' if ok2 else
-                              ('gf_terminals is never consulted' if ok2 is False else 'guard not recognised'),
+                              (('the function label needs a phrase AND gf_terminals (both are separate conditions): phrases '
+                                'without the option and tokens with it get none' if any(
+                                    ('haskey', kw, 'gf_terminals', True) == fa for fa in fl) else 'gf_terminals is never consulted')
+                               if ok2 is False else 'guard not recognised'),
                               construct='decor-gfterm', line=cfg.nodes[nid].lineno))
                 sepnames = [n.id for n in ast.walk(val) if isinstance(n, ast.Name) and n.id != f.params[0]]
                 ok3 = None
